@@ -5,10 +5,14 @@ package main
 import (
 	"fmt"
 	"go/token"
+	"os"
 	"strings"
+	"time"
 
 	"golang.org/x/tools/go/ssa"
 )
+
+var slowLog = os.Getenv("GOSYM_SLOW") != ""
 
 // Dec is one recorded decision of a path.
 type Dec struct {
@@ -38,9 +42,9 @@ func (d Dec) String() string {
 }
 
 type obsRec struct {
-	label string
-	terms []*Term // flattened scalars/bytes
-	lens  []int   // segmentation (for byte slices): -1 scalar, else length
+	label  string
+	terms  []*Term // flattened scalars/bytes
+	lens   []int   // segmentation (for byte slices): -1 scalar, else length
 	opaque bool
 }
 
@@ -122,12 +126,12 @@ type Exec struct {
 	funcsSeen map[string]bool
 	sentinels map[*ssa.Global]Value
 
-	ss        *schedState
-	callDepth int
-	curInstr ssa.Instruction
-	curFn    *ssa.Function
+	ss          *schedState
+	callDepth   int
+	curInstr    ssa.Instruction
+	curFn       *ssa.Function
 	wantWitness bool
-	trace    bool
+	trace       bool
 }
 
 func (e *Exec) curSite() string {
@@ -193,7 +197,11 @@ func (e *Exec) feasible(t *Term) (Result, Model) {
 	if e.sol.dead {
 		panic(abortf("solver", "solver died: %s", e.sol.lastErr))
 	}
+	t0 := time.Now()
 	r, m := e.sol.Check(e.ctx, []*Term{t}, true, e.nondet)
+	if slowLog && time.Since(t0) > 500*time.Millisecond {
+		fmt.Fprintf(os.Stderr, "SLOW %.1fs %s at %s: %s\n", time.Since(t0).Seconds(), r, e.curSite(), t.String())
+	}
 	if r == Unknown && e.sol.dead {
 		panic(abortf("solver", "solver died: %s", e.sol.lastErr))
 	}
